@@ -102,6 +102,10 @@ type SortValue struct {
 	Float    float64
 	Datetime int64
 	String   string
+
+	// seconds and nanoseconds of a datetime: UnixNano (Datetime) wraps before 1678 and after 2262
+	datetimeSec  int64
+	datetimeNsec int
 }
 
 func NewSortValue(val value.Primary, flags *option.Flags) *SortValue {
@@ -128,6 +132,8 @@ func NewSortValue(val value.Primary, flags *option.Flags) *SortValue {
 		t := dt.(*value.Datetime).Raw()
 		sortValue.Type = DatetimeType
 		sortValue.Datetime = t.UnixNano()
+		sortValue.datetimeSec = t.Unix()
+		sortValue.datetimeNsec = t.Nanosecond()
 		value.Discard(dt)
 	} else if b := value.ToBoolean(val); !value.IsNull(b) {
 		sortValue.Type = BooleanType
@@ -205,10 +211,13 @@ func (v *SortValue) Less(compareValue *SortValue) ternary.Value {
 	case DatetimeType:
 		switch compareValue.Type {
 		case DatetimeType:
-			if v.Datetime == compareValue.Datetime {
+			if v.datetimeSec == compareValue.datetimeSec && v.datetimeNsec == compareValue.datetimeNsec {
 				return ternary.UNKNOWN
 			}
-			return ternary.ConvertFromBool(v.Datetime < compareValue.Datetime)
+			if v.datetimeSec != compareValue.datetimeSec {
+				return ternary.ConvertFromBool(v.datetimeSec < compareValue.datetimeSec)
+			}
+			return ternary.ConvertFromBool(v.datetimeNsec < compareValue.datetimeNsec)
 		}
 	case StringType:
 		switch compareValue.Type {
@@ -247,7 +256,7 @@ func (v *SortValue) EquivalentTo(compareValue *SortValue) bool {
 	case DatetimeType:
 		switch compareValue.Type {
 		case DatetimeType:
-			return v.Datetime == compareValue.Datetime
+			return v.datetimeSec == compareValue.datetimeSec && v.datetimeNsec == compareValue.datetimeNsec
 		}
 	case BooleanType:
 		switch compareValue.Type {
